@@ -24,7 +24,7 @@ def qpts(xs, ys):
 
 
 def fmt_hist(hist):
-    return [{k: v for k, v in h.items() if k in ('op', 'M', 's', 'ref', 'ref_geometry')} for h in hist]
+    return [{k: v for k, v in h.items() if k in ('op', 'M', 's', 'ref', 'ref_geometry', 'ref_history')} for h in hist]
 
 
 # ------------------------------------------------------------------------------------------------ gWCS
@@ -60,6 +60,16 @@ def gwcs_case(ck, I, rng, t):
                 plane, U, mode, gr = old, 1.0, 'own', None
             else:
                 mode, gr, ref = G.gen_reference(I, rng, g, c_built, rng.randrange(5))
+                if mode in ('self', 'rotated') and rng.random() < 0.5:
+                    # a reference corrector that has itself been corrected, repeatedly, as one object (e.g. the
+                    # reference of a later align_wcs pass): its plane is an affine image of the plane it was built with
+                    rh = []
+                    for _ in range(rng.choice([2, 3])):
+                        rc_ = G.gen_correction(rng, unit / G.tan_scale_arcsec(gr))
+                        ref.set_correction(np.array(rc_['M']), np.array(rc_['s']))
+                        rh.append({'M': rc_['M'], 's': rc_['s']})
+                    rec['ref_history'] = rh
+                    mode += '+corrected%d' % len(rh)
                 U = G.tan_scale_arcsec(gr)
                 corr = G.gen_correction(rng, unit / U)
                 M, s = np.array(corr['M']), np.array(corr['s'])
@@ -115,7 +125,7 @@ def gwcs_case(ck, I, rng, t):
                 ck.violation({'kind': 'C02-identity-fails-gwcs', 'geometry': g,
                               'history_before (applied in order to a fresh JWSTWCSCorrector)': fmt_hist(hist),
                               'correction': {'matrix': M.tolist(), 'shift': s.tolist(), 'ref_tpwcs': rec.get('ref', None),
-                                             'ref_geometry': gr},
+                                             'ref_geometry': gr, 'ref_history (own-plane corrections applied to the reference first)': rec.get('ref_history')},
                               'pixel': [float(x[i]), float(y[i])],
                               'lhs old.world_to_tanp(new.det_to_world(p)) (in the plane of the correction)': lhs[:, i].tolist(),
                               'rhs matrix*old.det_to_tanp(p)+shift': rhs[:, i].tolist(),
